@@ -95,6 +95,20 @@ CHECKS = {
    note='Axioms: none. Style kinds share the style:name key as in the code.',
    tech='Coq proof (loop invariant + termination measure) + regenerated tables (code and RNG) + correspondence',
    ref='5/C10'),
+ 'C11': dict(
+   text='Proof (Coq): loading as a fold of build_caches over the elements of content.xml then styles.xml (definition name; names held '
+        'by the reference attributes that can name a style:style). For ANY element sequence: the names of the loaded definitions are '
+        'pairwise distinct (the renaming loop provably ends on a free name: pigeonhole over length+1 candidates), and a reference to a name '
+        'defined at or before the referring element holds afterwards a name that finds the last such definition (invariant by induction). '
+        'Corollaries for the two parts: a reference made in styles.xml (master pages, styles) finds the styles.xml definition, one made in '
+        'content.xml finds the content.xml definition, common styles and everything of content.xml are loaded unchanged - whatever names '
+        'the parts share, M-prefixed ones included. Table obligations re-proved every run: (element, attribute) is redirected iff by the '
+        'specification it can name a style:style. Tied by per-element correspondence of the extracted load_all with load(), and judged by '
+        'an independent marker-resolution oracle over source, loaded document, saved package and a second generation.',
+   note='Axioms: none. The abstraction of a package to the element list is done by the harness; style:style names are assumed unique '
+        'within one part across families; other kinds of styles (list styles, page layouts) are not renamed by the code and not covered.',
+   tech='Coq invariant proof by induction over the load sequence + regenerated tables + correspondence',
+   ref='5/C11'),
  'C12': dict(
    text='Proof (Coq): the renderers are functions of the eight section trees; contentxml/stylesxml/settingsxml leave the document as it '
         'is, metaxml/xml/save leave it with the generator normalised (exactly one generator, the library\'s, other meta children kept in '
